@@ -194,6 +194,12 @@ def check(ctx):
                "send_message_from_queue does not serialise the dequeued messages synchronously", key="dump_sync")
 
     # ---- 5 who writes identifier fields -------------------------------------------------------------
+    # an answer is only ever produced for a REQUEST: the classifiers that route a received message to the request handlers accept
+    # exactly (R bit set, command code) - shared with C06
+    ctx.clause = "6-classifiers"
+    from .c06 import _classifiers
+    from .. import psm as _psm
+    _classifiers(ctx, repo, ctx.need(repo.mods.get(_psm.SM), "state machine module"))
     ctx.clause = "5-who-writes-identifiers"
     writers = []
     # the templates live in the connection layer (Diameter._base / DiameterAssociation.base); the routing layer
